@@ -12,7 +12,7 @@ out=[]
 for sd in seeds:
     meta=json.load(open(sd+"/meta.json"))
     cv=meta.get("check_verdict","")
-    want=("detected" in cv) and not cv.startswith("neutralised") and ("not by "+prop) not in cv
+    want=("detected" in cv) and not cv.startswith("neutralised") and not cv.startswith("not detected") and ("not by "+prop) not in cv
     tmp=tempfile.mkdtemp(prefix="bngvet-thorough-")
     t0=time.time()
     try:
